@@ -85,6 +85,9 @@ pub fn prepare(rng: &mut Rng, p: &'static Profile) -> (String, usize, Prep) {
     if rng.chance(1, 4) {
         wl::decorate_occurrences(&mut g, rng);
     }
+    if rng.chance(1, 5) {
+        wl::add_skip_noise(&mut g);
+    }
     let k_limit = draw_k(rng, &g);
     let par = g.to_par();
     (par, k_limit, prepare_grammar(g, p.name, k_limit, &GenCfg::default()))
